@@ -3,14 +3,24 @@
 use crate::exec::{ExecSpec, InputMode};
 use crate::framework::{Scenario, Tier};
 use crate::specgen::{self, benign_io, pick_input_mode, swarm_schedule, CHECK_MODES, VIEW_MODES};
-use crate::trials::Trial;
+use crate::trials::{StopKind, Trial};
 use fpsim_rt::rng::Rng;
 use itsgen::corrupt;
-use itsgen::gen::{gen_arbitrary, gen_conforming, GenCfg, Stream};
+use itsgen::gen::{gen_arbitrary, gen_conforming, gen_framed_words, GenCfg, Stream};
+use itsgen::walker::walk;
 use itsgen::walker::Filter;
 
 pub fn registry() -> Vec<Box<dyn Scenario>> {
-    vec![Box::new(Conform), Box::new(Chaos), Box::new(Sched)]
+    vec![
+        Box::new(Conform),
+        Box::new(Chaos),
+        Box::new(Sched),
+        Box::new(EarlyStop),
+        Box::new(Truncate),
+        Box::new(Scan),
+        Box::new(FilterWrite),
+        Box::new(StatsTruth),
+    ]
 }
 
 pub fn find(prop: &str) -> Option<Box<dyn Scenario>> {
@@ -467,5 +477,620 @@ impl Scenario for Sched {
         }
         let _ = InputMode::File;
         Trial::Sched { base, variants, label }
+    }
+}
+
+// ------------------------------------------------------------------------------------------------
+// C17
+// ------------------------------------------------------------------------------------------------
+pub struct EarlyStop;
+
+impl Scenario for EarlyStop {
+    fn property(&self) -> &'static str {
+        "C17"
+    }
+    fn n_cases(&self, tier: Tier) -> u64 {
+        match tier {
+            Tier::Quick => 1_600,
+            Tier::Thorough => 60_000,
+        }
+    }
+    fn rule(&self) -> String {
+        "case = (multi-link stream, conforming or corrupted; command line) + one kind of stop condition placed inside \
+         active work: (a) stop event = the store the signal handler performs, injected at decision step 1, at the last \
+         step and at uniformly drawn steps of the run; (b) stdout failing with EPIPE/ENOSPC after N accepted bytes, \
+         N = 0, len-1 and uniform in [0, len], in the three views, filtered data to stdout, statistics to stdout and \
+         the report; (c) error cap -e N on inputs with many errors spread over links; (d) fatal framing error \
+         (offset-to-next out of range) at a random packet. Every run under a seeded non-canonical schedule in 4/5 of \
+         the cases, queue capacities capped to 1..8 in half of them (full queues), starvation policies included. \
+         Oracle: no panic, no deadlock, every managed thread finished within the step budget (50 x reference + 5000), \
+         exit status in the allowed set, partial -o file = whole packets and a prefix of the expected filtered data. \
+         Non-trivial: >= 3 managed threads. Distinct: (input hash, reference trace hash)."
+            .into()
+    }
+    fn assumptions(&self) -> Vec<String> {
+        vec![
+            "delivery of a real signal and the ctrlc helper thread are not simulated: their only effect on the program is the atomic store that the scheduler injects (a second signal calls process::exit)".into(),
+            "Rust programs ignore SIGPIPE: a closed stdout shows up as EPIPE from write, which is what the seam injects".into(),
+        ]
+    }
+    fn make(&self, seed: u64, case: u64, tier: Tier) -> Trial {
+        let mut rng = Rng::new(seed);
+        let stave = rng.chance(1, 4);
+        let mut cfg = GenCfg::swarm(&mut rng, stave);
+        cfg.n_links = rng.range(1, 8) as usize;
+        if rng.chance(1, 2) {
+            cfg.hbfs = (2, 10);
+        }
+        let mut st = gen_conforming(&cfg, &mut rng);
+        let kind_i = case % 4;
+        let mut label;
+        let mut extras = CmdExtras { stats_ext: "json".into(), ..Default::default() };
+        let mut parts: Vec<String>;
+        let kind;
+        let mut exit_code = None;
+        match kind_i {
+            0 => {
+                // stop event at any step, any mode
+                for _ in 0..rng.below(3) {
+                    corrupt::corrupt_stream(&mut st, &mut rng);
+                }
+                let (p, l) = random_valid_cmdline(Some(&st), &mut rng, &mut extras);
+                parts = p;
+                exit_code = extras.exit_code;
+                label = format!("stop-event | {l}");
+                kind = StopKind::StopEvent;
+            }
+            1 => {
+                // stdout goes away: views, filtered data to stdout, stats to stdout, report
+                for _ in 0..rng.below(2) {
+                    corrupt::corrupt_stream(&mut st, &mut rng);
+                }
+                let f = pick_filter(&st, &mut rng);
+                match rng.below(5) {
+                    0 | 1 => {
+                        let v = VIEW_MODES[rng.usize_below(3)];
+                        parts = s(v);
+                        parts.extend(f.args());
+                        if rng.chance(1, 2) {
+                            parts.push("-d".into());
+                        }
+                        label = format!("stdout-fails | {}", v.join(" "));
+                    }
+                    2 => {
+                        let f = if f == Filter::None {
+                            Filter::Link(st.links[rng.usize_below(st.links.len())].link_id)
+                        } else {
+                            f
+                        };
+                        parts = f.args();
+                        label = "stdout-fails | write stdout".to_string();
+                    }
+                    3 => {
+                        let m = rng.usize_below(5);
+                        parts = s(CHECK_MODES[m]);
+                        let ext = if rng.chance(1, 2) { "json" } else { "toml" };
+                        parts.extend(s(&["-S", "stdout", "-D", ext]));
+                        label = "stdout-fails | stats to stdout".to_string();
+                    }
+                    _ => {
+                        let m = rng.usize_below(5);
+                        parts = s(CHECK_MODES[m]);
+                        label = "stdout-fails | report".to_string();
+                    }
+                }
+                if rng.chance(1, 3) {
+                    let n = rng.range(1, 255);
+                    parts.extend(s(&["-E", &n.to_string()]));
+                    exit_code = Some(n as i32);
+                }
+                kind = StopKind::StdoutFails { errno: if rng.chance(1, 5) { 28 } else { 32 } };
+            }
+            2 => {
+                // error cap with many errors over several links
+                for _ in 0..rng.range(3, 12) {
+                    corrupt::corrupt_stream(&mut st, &mut rng);
+                }
+                let m = 2 + rng.usize_below(3);
+                parts = s(CHECK_MODES[m]);
+                parts.extend(s(&["-e", &rng.range(1, 6).to_string()]));
+                if rng.chance(1, 2) {
+                    let n = rng.range(1, 255);
+                    parts.extend(s(&["-E", &n.to_string()]));
+                    exit_code = Some(n as i32);
+                }
+                label = "error-cap".to_string();
+                kind = StopKind::Intrinsic;
+            }
+            _ => {
+                // fatal framing error at packet j; sometimes while writing filtered data to a file
+                if !st.order.is_empty() {
+                    let j = rng.usize_below(st.order.len());
+                    st.packet_mut(j).rdh.offset_next = *rng.pick(&[0u16, 1, 63, 10065, 20000, 0xFFFF]);
+                }
+                if rng.chance(1, 2) {
+                    let f = Filter::Link(st.links[rng.usize_below(st.links.len())].link_id);
+                    parts = f.args();
+                    parts.extend(s(&["-o", "@OUT@"]));
+                    label = "fatal-framing | write file".to_string();
+                } else {
+                    let (p, l) = random_valid_cmdline(Some(&st), &mut rng, &mut extras);
+                    parts = p;
+                    exit_code = extras.exit_code;
+                    label = format!("fatal-framing | {l}");
+                }
+                kind = StopKind::Intrinsic;
+            }
+        }
+        if kind == StopKind::StopEvent && rng.chance(1, 3) {
+            // stop event while filtered data goes to a file: whole packets only
+            let f = Filter::Link(st.links[rng.usize_below(st.links.len())].link_id);
+            parts = f.args();
+            parts.extend(s(&["-o", "@OUT@"]));
+            label = "stop-event | write file".to_string();
+            exit_code = None;
+            extras = CmdExtras { stats_ext: "json".into(), ..Default::default() };
+        }
+        let input = st.bytes();
+        let im = pick_input_mode(&mut rng);
+        let mut base = specgen::spec(im, &parts, input);
+        base.custom_checks_toml = extras.checks_toml.clone();
+        base.stats_ext = extras.stats_ext.clone();
+        let est = 300 + st.total_packets() as u64 * 12;
+        if rng.chance(4, 5) {
+            swarm_schedule(&mut base, &mut rng, est);
+        }
+        if rng.chance(1, 3) {
+            benign_io(&mut base, &mut rng);
+        }
+        let mut allowed = vec![0, 1];
+        if let Some(n) = exit_code {
+            allowed.push(n);
+        }
+        let n_points = match (tier, &kind) {
+            (_, StopKind::Intrinsic) => 0,
+            (Tier::Quick, _) => 6,
+            (Tier::Thorough, _) => 16,
+        };
+        Trial::EarlyStop { base, n_points, points_seed: rng.next_u64(), kind, allowed_status: allowed, label }
+    }
+}
+
+// ------------------------------------------------------------------------------------------------
+// C18
+// ------------------------------------------------------------------------------------------------
+pub struct Truncate;
+
+impl Scenario for Truncate {
+    fn property(&self) -> &'static str {
+        "C18"
+    }
+    fn level(&self) -> &'static str {
+        "fault_enumeration"
+    }
+    fn n_cases(&self, tier: Tier) -> u64 {
+        match tier {
+            Tier::Quick => 160,
+            Tier::Thorough => 4_000,
+        }
+    }
+    fn rule(&self) -> String {
+        "case = (stream, command line, source) and a set of crash points = input ends after byte k. Streams are \
+         conforming or corrupted multi-packet multi-link streams. Small streams (<= 1.5 kB quick, <= 6 kB thorough): \
+         EVERY k in 0..=len is enumerated; larger streams: every structural boundary (inside the first 8 bytes, \
+         inside each RDH, at each RDH end, inside each payload, at each packet end, +-1 around them) plus seeded \
+         positions. The cut is the seam answering EOF at byte k (pipe) or the file ending there (file). Modes: the \
+         five check modes (findings compared) and view rdh / its-readout-frames (rows compared). Oracle: normal \
+         termination, exit status in {0,1,N}; messages with offset below the start of the incomplete final packet \
+         equal the untruncated run's messages for those packets (stave-mode frame messages only if the frame end \
+         they quote is also before the cut); view rows are a prefix of the untruncated rows. Non-trivial: >= 2 \
+         managed threads in the untruncated run; distinct: (input hash, trace hash); evaluations counts cases, \
+         `executions` counts cut positions executed."
+            .into()
+    }
+    fn make(&self, seed: u64, case: u64, tier: Tier) -> Trial {
+        let mut rng = Rng::new(seed);
+        let rows_mode = case % 4 == 3;
+        let mode_i = (case % 5) as usize;
+        let stave = !rows_mode && mode_i == 4;
+        let mut cfg = GenCfg::swarm(&mut rng, stave);
+        let small = case % 2 == 0;
+        if small {
+            cfg.n_links = rng.range(1, 3) as usize;
+            cfg.hbfs = (1, 2);
+            cfg.data_pages = (1, 2);
+            cfg.triggers = (1, 2);
+            cfg.data_words = (0, 3);
+            if stave {
+                cfg.barrels = Some(vec![itsgen::gen::Barrel::Inner]);
+                cfg.max_hits = 1;
+            }
+        } else {
+            cfg.n_links = rng.range(1, 6) as usize;
+        }
+        let mut st = gen_conforming(&cfg, &mut rng);
+        let mut label = if rng.chance(1, 2) {
+            for _ in 0..rng.range(1, 3) {
+                loop {
+                    let mut probe = st.clone();
+                    let f = corrupt::corrupt_stream(&mut probe, &mut rng);
+                    if f != "size_inconsistent" {
+                        st = probe;
+                        break;
+                    }
+                }
+            }
+            "corrupted".to_string()
+        } else {
+            "conforming".to_string()
+        };
+        let input = st.bytes();
+        let len = input.len() as u64;
+        let full_enum_limit = match tier {
+            Tier::Quick => 1500,
+            Tier::Thorough => 6000,
+        };
+        let mut cuts: Vec<u64> = Vec::new();
+        if len <= full_enum_limit {
+            cuts.extend(0..=len);
+            label.push_str(" every-byte");
+        } else {
+            cuts.extend(0..=9u64.min(len));
+            let mut pos = 0u64;
+            for &(l, p) in &st.order {
+                let plen = 64 + st.links[l].packets[p].payload().len() as u64;
+                for c in [pos + 1, pos + 32, pos + 63, pos + 64, pos + 65, pos + 64 + (plen - 64) / 2, pos + plen - 1, pos + plen] {
+                    if c <= len {
+                        cuts.push(c);
+                    }
+                }
+                pos += plen;
+            }
+            let extra = match tier {
+                Tier::Quick => 40,
+                Tier::Thorough => 400,
+            };
+            for _ in 0..extra {
+                cuts.push(rng.below(len + 1));
+            }
+            cuts.sort_unstable();
+            cuts.dedup();
+            // keep the quick tier bounded
+            if tier == Tier::Quick && cuts.len() > 400 {
+                let mut keep = Vec::new();
+                let stride = cuts.len() as f64 / 400.0;
+                let mut x = 0.0;
+                while (x as usize) < cuts.len() {
+                    keep.push(cuts[x as usize]);
+                    x += stride;
+                }
+                cuts = keep;
+            }
+            label.push_str(" boundaries");
+        }
+        let mut parts: Vec<String> = if rows_mode {
+            let v = if rng.chance(1, 2) { VIEW_MODES[0] } else { VIEW_MODES[1] };
+            label = format!("{} | {label}", v.join(" "));
+            let mut p = s(v);
+            p.push("-d".into());
+            p
+        } else {
+            label = format!("{} | {label}", CHECK_MODES[mode_i].join(" "));
+            s(CHECK_MODES[mode_i])
+        };
+        let mut allowed = vec![0, 1];
+        if rng.chance(1, 3) {
+            let n = rng.range(2, 255);
+            parts.extend(s(&["-E", &n.to_string()]));
+            allowed.push(n as i32);
+        }
+        let im = pick_input_mode(&mut rng);
+        label.push_str(if im == InputMode::File { " file" } else { " pipe" });
+        let mut full = specgen::spec(im, &parts, input);
+        if rng.chance(1, 2) {
+            swarm_schedule(&mut full, &mut rng, 300 + st.total_packets() as u64 * 12);
+        }
+        if rng.chance(1, 3) {
+            benign_io(&mut full, &mut rng);
+        }
+        Trial::Truncate { full, cuts, allowed_status: allowed, rows_mode, label }
+    }
+}
+
+// ------------------------------------------------------------------------------------------------
+// shared: well-framed workloads and filters drawn from their content
+// ------------------------------------------------------------------------------------------------
+
+/// Packet counts that exercise the 100-packet batch boundaries.
+fn packet_count(rng: &mut Rng, tier: Tier) -> usize {
+    match rng.below(10) {
+        0 => 0,
+        1 => 1,
+        2 => *rng.pick(&[99usize, 100, 101, 199, 200, 201, 300]),
+        3 if tier == Tier::Thorough => rng.range(1000, 20_000) as usize,
+        _ => rng.range(2, 260) as usize,
+    }
+}
+
+/// A filter whose value is present in the walk (or, 1 in 5, absent).
+fn filter_from_walk(input: &[u8], rng: &mut Rng) -> Filter {
+    let w = walk(input);
+    if w.pkts.is_empty() {
+        return Filter::None;
+    }
+    let p = &w.pkts[rng.usize_below(w.pkts.len())];
+    match rng.below(10) {
+        0 | 1 => Filter::Link(p.rdh.link_id),
+        2 | 3 => Filter::Fee(p.rdh.fee_id),
+        4 | 5 => Filter::Stave(p.rdh.fee_id & 0b0111_0000_0011_1111),
+        6 => Filter::Link(rng.below(256) as u8),
+        7 => Filter::Fee(rng.next_u32() as u16),
+        _ => Filter::None,
+    }
+}
+
+// ------------------------------------------------------------------------------------------------
+// C03
+// ------------------------------------------------------------------------------------------------
+pub struct Scan;
+
+impl Scenario for Scan {
+    fn property(&self) -> &'static str {
+        "C03"
+    }
+    fn n_cases(&self, tier: Tier) -> u64 {
+        match tier {
+            Tier::Quick => 1_500,
+            Tier::Thorough => 60_000,
+        }
+    }
+    fn rule(&self) -> String {
+        "case = well-framed stream with arbitrary header values (0, 1, 99/100/101/199/200/201/300 and 2..260 packets; \
+         thorough up to 20000), payloads of 0..10000 arbitrary bytes or of 80-bit words laid out per the header's data \
+         format, 1..6 interleaved links, and a filter (link / FEE / layer-stave present in the stream, absent value, \
+         or none). Each case is run through 3-4 payload-handling paths: `view rdh -d` (payload skipped by seek from a \
+         file, by read-discard from a pipe), `check sanity -S` (skipped), `check sanity its -S` (loaded) and, for \
+         word payloads, `view its-readout-frames-data -d` (loaded); under seeded schedules, capped queues and benign \
+         short reads / EINTR so that buffer refills and relative seeks cross buffer boundaries. Oracle: independent \
+         chain walk: rows == matching walker packets in order with walker offsets and independently decoded fields; \
+         word rows / unknown-ID lines at walker word offsets with the input's bytes; rdhs_seen, rdhs_filtered, \
+         payload_size == walker counts; every error offset is a walker RDH or word offset. Non-trivial: >= 2 packets \
+         and >= 3 threads; distinct: (input hash, trace hash)."
+            .into()
+    }
+    fn make(&self, seed: u64, case: u64, tier: Tier) -> Trial {
+        let mut rng = Rng::new(seed);
+        let n = packet_count(&mut rng, tier);
+        let words = case % 2 == 0;
+        let nl = rng.range(1, 6) as usize;
+        let input = if words {
+            let mw = *rng.pick(&[0usize, 3, 20, 200, 900]);
+            gen_framed_words(&mut rng, n, mw, nl, 100, false)
+        } else {
+            let mp = *rng.pick(&[0usize, 64, 1000, 10_000]);
+            gen_arbitrary(&mut rng, n, mp, nl)
+        };
+        let f = filter_from_walk(&input, &mut rng);
+        let mut specs = Vec::new();
+        let mut add = |parts: &[&str], im: InputMode, rng: &mut Rng| {
+            let mut p = s(parts);
+            p.extend(f.args());
+            let mut sp = specgen::spec(im, &p, input.clone());
+            if rng.chance(3, 4) {
+                swarm_schedule(&mut sp, rng, 300 + n as u64 * 4);
+            }
+            if rng.chance(2, 3) {
+                benign_io(&mut sp, rng);
+            }
+            specs.push(sp);
+        };
+        add(&["view", "rdh", "-d"], InputMode::File, &mut rng);
+        add(&["view", "rdh", "-d"], InputMode::Pipe, &mut rng);
+        let im = pick_input_mode(&mut rng);
+        if rng.chance(1, 2) {
+            add(&["check", "sanity", "-S", "@STATS@", "-D", "json"], im, &mut rng);
+        } else {
+            add(&["check", "sanity", "its", "-S", "@STATS@", "-D", "json"], im, &mut rng);
+        }
+        if words {
+            let im = pick_input_mode(&mut rng);
+            add(&["view", "its-readout-frames-data", "-d"], im, &mut rng);
+        }
+        let label = format!(
+            "{} | {}",
+            if words { "word payloads" } else { "arbitrary payloads" },
+            match f {
+                Filter::None => "no filter",
+                Filter::Link(_) => "link filter",
+                Filter::Fee(_) => "fee filter",
+                Filter::Stave(_) => "stave filter",
+            }
+        );
+        Trial::Scan { specs, label }
+    }
+}
+
+// ------------------------------------------------------------------------------------------------
+// C08
+// ------------------------------------------------------------------------------------------------
+pub struct FilterWrite;
+
+impl Scenario for FilterWrite {
+    fn property(&self) -> &'static str {
+        "C08"
+    }
+    fn n_cases(&self, tier: Tier) -> u64 {
+        match tier {
+            Tier::Quick => 1_200,
+            Tier::Thorough => 50_000,
+        }
+    }
+    fn rule(&self) -> String {
+        "case = well-framed stream (arbitrary headers and payload sizes, packet counts incl. 0, 1 and the batch \
+         multiples, 1..6 interleaved links) x one filter kind (link / FEE / layer-stave) x destination (file / stdout) \
+         x source (file / pipe). The filter is run for EVERY distinct value of that kind present in the stream plus \
+         one absent value, under seeded schedules, capped reader->writer queue and benign short reads / short writes \
+         / EINTR. Oracle: output bytes == concatenation in input order of the walker's matching packets; outputs over \
+         all distinct values total the input size (partition); each output walks cleanly; filtering an output again \
+         reproduces it; `rdhs_filtered` == walker count; exit 0. Non-trivial: >= 2 packets and >= 3 threads."
+            .into()
+    }
+    fn make(&self, seed: u64, _case: u64, tier: Tier) -> Trial {
+        let mut rng = Rng::new(seed);
+        let n = packet_count(&mut rng, tier).min(2000);
+        let nl = rng.range(1, 6) as usize;
+        let mp = *rng.pick(&[0usize, 64, 1000, 10_000]);
+        let input = gen_arbitrary(&mut rng, n, mp, nl);
+        let w = walk(&input);
+        let kind = rng.below(3);
+        let mut values: Vec<Filter> = Vec::new();
+        for p in &w.pkts {
+            let f = match kind {
+                0 => Filter::Link(p.rdh.link_id),
+                1 => Filter::Fee(p.rdh.fee_id),
+                _ => Filter::Stave(p.rdh.fee_id & 0b0111_0000_0011_1111),
+            };
+            if !values.contains(&f) {
+                values.push(f);
+            }
+        }
+        let complete = values.len() <= 12;
+        values.truncate(12);
+        // one absent value
+        let absent = loop {
+            let f = match kind {
+                0 => Filter::Link(rng.below(256) as u8),
+                1 => Filter::Fee(rng.next_u32() as u16),
+                _ => Filter::Stave(itsgen::rdh::fee_id(rng.below(8) as u8, rng.below(64) as u8, 0)),
+            };
+            if !values.contains(&f) {
+                break f;
+            }
+        };
+        values.push(absent);
+        let filters: Vec<Vec<String>> = values.iter().map(|f| f.args()).collect();
+        let to_file = rng.chance(1, 2);
+        let im = pick_input_mode(&mut rng);
+        let mut base = specgen::spec(im.clone(), &[], input);
+        if rng.chance(3, 4) {
+            swarm_schedule(&mut base, &mut rng, 300 + n as u64 * 3);
+        }
+        if rng.chance(2, 3) {
+            benign_io(&mut base, &mut rng);
+        }
+        let label = format!(
+            "{} | {} | {}{}",
+            ["link", "fee", "stave"][kind as usize],
+            if to_file { "to file" } else { "to stdout" },
+            if im == InputMode::File { "from file" } else { "from pipe" },
+            if complete { " | partition" } else { "" }
+        );
+        Trial::FilterWrite { base, filters, to_file, label }
+    }
+}
+
+// ------------------------------------------------------------------------------------------------
+// C14
+// ------------------------------------------------------------------------------------------------
+pub struct StatsTruth;
+
+impl Scenario for StatsTruth {
+    fn property(&self) -> &'static str {
+        "C14"
+    }
+    fn n_cases(&self, tier: Tier) -> u64 {
+        match tier {
+            Tier::Quick => 4_000,
+            Tier::Thorough => 200_000,
+        }
+    }
+    fn rule(&self) -> String {
+        "case = well-framed stream (arbitrary header values / word payloads / conforming multi-link streams; counts up \
+         to beyond a batch, payload totals beyond 2^16) x mode (five checks, three views, filtered writing to a file) \
+         x filter (present / absent / none) x statistics format (JSON / TOML) x {file, pipe} x seeded schedule x \
+         capped queues x benign I/O faults. Oracle: values computed by the independent chain walk: RDHs visited, RDHs \
+         matching the filter, payload bytes, sorted links, FEE IDs in first-seen order, run trigger type, RDH version, \
+         data format, system ID; in check and view modes heartbeat frames, layer/stave pairs and all 20 per-bit \
+         trigger counts over analysed packets; total_errors == number of messages, unique codes == codes in the \
+         messages; report rows Total RDHs / Total HBFs / Total Errors agree with the file. Non-trivial: >= 2 packets \
+         and >= 3 threads."
+            .into()
+    }
+    fn make(&self, seed: u64, case: u64, tier: Tier) -> Trial {
+        let mut rng = Rng::new(seed);
+        let n = packet_count(&mut rng, tier).min(3000);
+        let nl = rng.range(1, 6) as usize;
+        let src = case % 3;
+        let input = match src {
+            0 => {
+                let mp = *rng.pick(&[0usize, 64, 1000, 10_000]);
+                // sane first-packet values on every packet keep the stream free of documented fatals
+                gen_arbitrary(&mut rng, n, mp, nl)
+            }
+            1 => {
+                let mw = *rng.pick(&[3usize, 20, 200]);
+                let sane = rng.chance(1, 2);
+                gen_framed_words(&mut rng, n, mw, nl, 50, sane)
+            }
+            _ => {
+                let cfg = GenCfg::swarm(&mut rng, false);
+                gen_conforming(&cfg, &mut rng).bytes()
+            }
+        };
+        let f = filter_from_walk(&input, &mut rng);
+        let ext = if rng.chance(1, 2) { "json" } else { "toml" };
+        let mut parts: Vec<String>;
+        let analysed;
+        let label;
+        match rng.below(10) {
+            0..=5 => {
+                // excess padding is a fatal for the views and a payload error for its checks; word-level
+                // checks on arbitrary payloads are fine (errors are counted, not judged)
+                let m = if src == 0 { rng.usize_below(3) * 2 % 5 } else { rng.usize_below(4) };
+                let m = if src == 0 { [0usize, 2][m % 2] } else { m };
+                parts = s(CHECK_MODES[m]);
+                analysed = true;
+                label = format!("{} | {ext}", CHECK_MODES[m].join(" "));
+            }
+            6..=7 => {
+                let v = if src == 0 { VIEW_MODES[0] } else { VIEW_MODES[rng.usize_below(3)] };
+                parts = s(v);
+                parts.push("-d".into());
+                analysed = true;
+                label = format!("{} | {ext}", v.join(" "));
+            }
+            _ => {
+                let f2 = if f == Filter::None {
+                    let w = walk(&input);
+                    match w.pkts.first() {
+                        Some(p) => Filter::Link(p.rdh.link_id),
+                        None => Filter::Link(0),
+                    }
+                } else {
+                    f
+                };
+                parts = f2.args();
+                parts.extend(s(&["-o", "@OUT@"]));
+                analysed = false;
+                label = format!("write file | {ext}");
+            }
+        }
+        if analysed {
+            parts.extend(f.args());
+        }
+        parts.extend(s(&["-S", "@STATS@", "-D", ext]));
+        if rng.chance(1, 4) {
+            parts.push("-m".into());
+        }
+        let im = pick_input_mode(&mut rng);
+        let mut spec = specgen::spec(im, &parts, input);
+        spec.stats_ext = ext.to_string();
+        if rng.chance(3, 4) {
+            swarm_schedule(&mut spec, &mut rng, 300 + n as u64 * 6);
+        }
+        if rng.chance(1, 2) {
+            benign_io(&mut spec, &mut rng);
+        }
+        Trial::StatsTruth { spec, analysed, label }
     }
 }
